@@ -15,7 +15,8 @@
 (***************************************************************************)
 EXTENDS Integers, Sequences, FiniteSets, Json, TLC
 
-CONSTANT Tier
+CONSTANT Tier,
+         Seed      \* (not used by this corpus: nothing in it is sampled)
 
 VARIABLE row
 vars == <<row>>
